@@ -75,7 +75,7 @@ pub fn build_text(c: &TextCase) -> String {
     t
 }
 
-fn keys(cfg: u8) -> Vec<std::sync::Arc<SignedSecretKey>> {
+pub fn keys(cfg: u8) -> Vec<std::sync::Arc<SignedSecretKey>> {
     match cfg {
         1 => vec![common::cert(KeyKind::Ed25519V6, 1)],
         3 => vec![
